@@ -397,3 +397,65 @@ PROPS["C17"] = dict(
                  "find() on an absent key may return either neighbour (the splayed root); only membership is fixed",
                  SAN_ASSUME],
 )
+
+
+# ----------------------------------------------------------------------------- C19
+def _c19_post(res, scratch, tier, seed0):
+    from oracle import c19_oracle
+    n, per, bad = c19_oracle.check_logs(scratch)
+    res.counters["oracle_records_checked"] = n
+    for k, v in per.items():
+        res.counters["oracle_records:" + k] = v
+    if n < res.counters.get("records_logged", 0):
+        res.inconclusive.append("python oracle saw %d records, harness logged %d"
+                                % (n, res.counters.get("records_logged", 0)))
+    for key, detail in bad:
+        res.violations.append(dict(key=key, detail=detail, seed=seed0, index=0, run=-1,
+                                   unit="str", variant="asan", args=["mode=codec"]))
+
+
+_STR_TLX = ["tlx/string/%s.cpp" % n for n in (
+    "base64", "hexdump", "compare_icase", "contains", "ends_with", "equal_icase", "erase_all", "join",
+    "join_quoted", "less_icase", "pad", "replace", "split", "split_quoted", "starts_with", "to_lower",
+    "to_upper", "trim")]
+PROPS["C19"] = dict(
+    units={"str": dict(src=["harness/C19_strings.cpp"], tlx=_STR_TLX)},
+    quick=[
+        R("str", "plain", 16, 4681, ["mode=exh"], partition=True),
+        R("str", "asan", 16, 585, ["mode=exh"], partition=True),      # lengths 0..3 under ASan
+        R("str", "asan", 8, 30, ["mode=rand"]),
+        R("str", "asan", 4, 260, ["mode=codec"], partition=True),
+    ],
+    thorough=[
+        R("str", "plain", 16, 4681, ["mode=exh"], partition=True),
+        R("str", "asan", 16, 4681, ["mode=exh"], partition=True, timeout=7200),
+        R("str", "asan", 16, 3000, ["mode=rand"], timeout=7200),
+        R("str", "plain", 16, 20000, ["mode=rand"], timeout=7200),
+        R("str", "asan", 16, 4000, ["mode=codec"], partition=True, timeout=7200),
+    ],
+    post=[_c19_post],
+    rule="exh: one case per byte string s of length 0..4 over {',','\"','\\',' ','a','B',NUL,0xE9} (4681 strings): every "
+         "one-string helper (to_lower/upper, all 27 trim overloads x default/char/set drop, erase_all, pad, contains, "
+         "char replace, split by char with limit 0/1/2/3/npos and min_fields, hexdump/base64 round trip, one-field "
+         "join_quoted round trip) and, paired with every t of length 0..2 (73 strings), every two-string helper "
+         "(starts/ends_with +icase in all pointer/view overloads, contains, compare/equal/less_icase in 4 overloads, "
+         "levenshtein +icase, replace_first/all with 4 replacements, split by string with limits and min_fields) "
+         "against reference code written from the header documentation. rand: 200 rounds of join<->split round trips "
+         "(bordered and NUL separators, empty parts at the beginning/middle/end), join_quoted<->split_quoted for "
+         "arbitrary vectors over an alphabet of separator/quote/escape/\\n\\r\\t/NUL/high bytes with 5x2x2 "
+         "parameter choices, long strings with overlapping needles. codec: every length 0..maxlen x 4 contents + "
+         "random lengths < 10^4: hexdump (6 overloads) and base64 with line breaks 0/4/8/76/random multiple of 4, "
+         "strict and non-strict decode, dirty input; each encoding is also recomputed by python. Classes: string "
+         "length (exh), length mod 3 (codec).",
+    exhaustive=dict(quick="all strings of length 0..4 over the 8-byte alphabet x all partners of length 0..2 in the "
+                          "uninstrumented build (ASan build: lengths 0..3)",
+                    thorough="as quick, in both builds"),
+    require=dict(any=["exh_strings", "calls_compared", "roundtrips_join_split", "roundtrips_quoted",
+                      "roundtrip_trailing_empty_part", "quoted_empty_field", "quoted_field_starting_with_quote",
+                      "codec_lengths", "oracle_records_checked"]),
+    assumptions=["reference helpers in the harness are direct transcriptions of the header documentation; python's "
+                 "base64/binascii are the RFC 4648 reference", "less_icase: the documentation does not say where bytes >= "
+                 "0x80 sort, so only its agreement with compare_icase on 7-bit input, asymmetry and consistency with "
+                 "equal_icase are required", "empty separators/needles and equal sep/quote/escape characters are outside "
+                 "the documented domain and not driven", SAN_ASSUME],
+)
